@@ -1,8 +1,9 @@
 /-
 Tie (kind `afunc`, specs/e2_chanfunc.json): the `clientV2` counter methods and the guard
 `IsReadyForMessages` as TRANSLATED Go definitions (`Nsq.Gen.ChanFunc`, regenerated from
-nsqd/client_v2.go on every run) proved equal to what the channel model `Nsq.Model.Chan` does with
-the corresponding `Client` fields. These replace / back the statement-text facts `isReady_eq`,
+nsqd/client_v2.go on every run) proved to have the effect the channel model `Nsq.Model.Chan` has on
+the corresponding `Client` fields, absent int64 overflow (only `clIsReady_eq` and `clTimedOut_eq` mention a definition
+of `Nsq.Model.Chan`; the others state the arithmetic effect the model's step performs). These replace / back the statement-text facts `isReady_eq`,
 `clientFinished_eq`, `clientSending_eq`, `clientDiscarded_eq`, `clientEmpty_eq` of `Nsq.Tie.Chan`
 (kept: they also pin the ORDER of calls, which a value-level translation cannot).
 
